@@ -107,11 +107,17 @@ CHECKS["C08"] = dict(
     text="Proved on the model of Row.traverse (both branches) and Table._yield_odf_rows: the k-th yielded cell is addressed x = k and is the k-th cell of "
     "the expanded row, rows come once per repetition, and NO yielded cell keeps a repeat count wherever a range starts (incl. the last position of a "
     "repeated run); get_value addresses the asked cell for every integer coordinate and answers the empty cell outside the populated area. "
-    "Decided by correspondence only (partial): detachment - every getter of the property, 4-5 mutations of every returned object, table XML compared "
-    "byte for byte, other returned objects compared too.",
-    note=TABLE_NOTE + "Aliasing cannot be expressed in a pure model: 'detached' is exploration on the implementation, not a theorem. Single-item reads "
+    "Detachment: proved on the ownership heap (OdfModel/Heap: the table is owner 0, every returned object an owner of its own born with fresh objects) - "
+    "no history of modifications of returned objects changes an object of the table or of another returned object, a read followed by such modifications "
+    "leaves the table as the read alone leaves it, the table changes only by steps applied to the table (returned_copies_detached, returned_copies_independent, "
+    "read_then_modify, table_changes_only_by_table_steps). Tie to the code: the live Python objects (wrapper dicts, cache lists, lxml trees) reachable from the "
+    "table and from the returned objects are walked after the read and after each modification and replayed on the model, which has no object with two owners and "
+    "refuses a step on another owner's object; besides, for every getter of the property, 4-8 mutations of every returned object with the table XML compared "
+    "byte for byte, its answers and the other returned objects compared too.",
+    note=TABLE_NOTE + "The heap theorems are about traces of alloc / write steps: that the implementation's objects form such a trace is what the walk checks, on the "
+    "objects it reaches (instance dicts, dicts / lists / sets, one cell per lxml tree); it is not proved from the source. Single-item reads "
     "(get_cell, get_row, get_column, and the per-row cells of get_column_cells) may keep their repeat count; only expanding reads must drop it.",
-    technique="Lean 4 theorems on the traverse loops + differential correspondence + mutation-of-returned-object oracle",
+    technique="Lean 4 theorems on the traverse loops and on the ownership heap + differential correspondence (line protocol, heap walk of live objects) + mutation-of-returned-object oracle",
     design="5/C08",
 )
 
@@ -384,7 +390,7 @@ def main():
         "checks": checks,
         "not_applicable": na,
         "notes": "fix: commits made in /repo are listed in /verif/known_findings.jsonl (status fixed; 63 so far). See DESIGN.md (section 10: what was built, "
-                 "10.6-10.9: third session). Self-test against seeded changes: 105 stored under /verif/seeded (5 rounds of fresh sub-agents), all caught; "
+                 "10.6-10.12: third session). Self-test against seeded changes: 115 stored under /verif/seeded (6 rounds of fresh sub-agents), all caught; "
                  "`bash harness/seedsweep.sh` re-runs every seed against the check of its property on scratch copies of /repo/src (never touches /repo), "
                  "`bash harness/seedrun2.sh <seed> <Cxx>` one of them, `bash harness/cleanruns.sh <VERIF_SEED>` every check once on the tree as it is.",
     }
